@@ -29,7 +29,8 @@ Taken ==
                     \cup (IF E.accepted # last'.accepted THEN {"C_acceptance_differs_from_model"} ELSE {})
                ELSE \* client operation: the scripted server grants or refuses as the history says
                     (IF E.op \in {"x11", "fwd"} /\ E.raised = E.flag THEN {"C_operation_outcome_differs"} ELSE {})
-                    \cup (IF E.op \notin {"x11", "fwd"} /\ E.raised THEN {"C_operation_raised"} ELSE {}))
+                    \cup (IF E.op = "x11closed" /\ ~E.raised THEN {"C_operation_outcome_differs"} ELSE {})
+                    \cup (IF E.op \notin {"x11", "fwd", "x11closed"} /\ E.raised THEN {"C_operation_raised"} ELSE {}))
 Skipped == /\ ~ENABLED Step(E.op, E.arg, E.flag)
            /\ UNCHANGED vars
            /\ bad' = {"C_step_not_enabled_in_model"} \cup (IF IsEvent(E) THEN Bad(Seen(E)) ELSE {})
